@@ -515,6 +515,10 @@ ERROR E1_read_bytes(E1 *a, const byte *in, const int in_len) {
         return BAD_ENCODING;
       }
     }
+    // the loop above stops before the last byte, which must be zero as well
+    if (in[G1_SER_BYTES - 1]) {
+      return BAD_ENCODING;
+    }
     E1_set_infty(a);
     return VALID;
   }
@@ -809,6 +813,10 @@ ERROR E2_read_bytes(E2 *a, const byte *in, const int in_len) {
       if (in[i]) {
         return BAD_ENCODING;
       }
+    }
+    // the loop above stops before the last byte, which must be zero as well
+    if (in[G2_SER_BYTES - 1]) {
+      return BAD_ENCODING;
     }
     E2_set_infty(a);
     return VALID;
